@@ -61,7 +61,86 @@ def _construct(cls, kwargs, route):
             else:
                 plain[k] = v
         return _try(lambda: cls.model_validate_json(_json(plain)))
+    if route == "aoef":
+        return _via_aoef(cls, kwargs)
     raise KeyError(route)
+
+
+def _via_aoef(cls, kwargs):
+    """AOEF loading as a construction route: the object is assembled WITHOUT validation (model_construct), placed in
+    the smallest collection that can hold it, written with io.save and read back with io.load.  Rejected = io.load
+    raises.  (If io.save itself cannot write the unvalidated object the path is skipped: there is no document.)"""
+    raw = cls.model_construct(**kwargs)
+    b = graph.Builder()
+    f = graph.Fixed(False)
+    name = cls.__name__
+    if name == "AnnotationProject":
+        coll = raw
+    elif name == "Clip":
+        coll = data.AnnotationSet(uuid=b.uid(), clip_annotations=[b.clip_annotation(raw, f)])
+    elif name in ("PredictedTag", "SoundEventPrediction", "SequencePrediction"):
+        rec = b.recording(5, f)
+        clip = b.clip(rec, f)
+        cp = data.ClipPrediction(uuid=b.uid(), clip=clip,
+                                 tags=[raw] if name == "PredictedTag" else [],
+                                 sound_events=[raw] if name == "SoundEventPrediction" else [],
+                                 sequences=[raw] if name == "SequencePrediction" else [])
+        coll = data.PredictionSet(uuid=b.uid(), clip_predictions=[cp])
+    elif name == "Match":
+        src = kwargs.get("source")
+        rec = src.sound_event.recording
+        clip = b.clip(rec, f)
+        ce = data.ClipEvaluation.model_construct(
+            uuid=b.uid(), annotations=b.clip_annotation(clip, f),
+            predictions=data.ClipPrediction(uuid=b.uid(), clip=clip, sound_events=[src]), matches=[raw])
+        coll = data.Evaluation.model_construct(uuid=b.uid(), created_on=h.DT(1), evaluation_task=h.S(1, "task"),
+                                               clip_evaluations=[ce], metrics=[], score=None)
+    elif name == "ClipEvaluation":
+        # (pydantic re-runs a model's after-validators on a nested instance: the wrapper is unvalidated too)
+        coll = data.Evaluation.model_construct(uuid=b.uid(), created_on=h.DT(1), evaluation_task=h.S(1, "task"),
+                                               clip_evaluations=[raw], metrics=[], score=None)
+    else:
+        raise KeyError(name)
+    from soundevent import io
+
+    if h.MODEL:
+        doc = graph.MemPath()
+        try:
+            io.save(coll, doc)
+        except Exception:  # noqa
+            raise graph.Vacuous()
+        return _try(lambda: _unwrap(name, io.load(doc)))
+    import os
+    import tempfile
+
+    d = tempfile.mkdtemp(prefix="verif_c04_")
+    pth = os.path.join(d, "doc.json")
+    try:
+        try:
+            io.save(coll, pth)
+        except Exception:  # noqa
+            raise graph.Vacuous()
+        return _try(lambda: _unwrap(name, io.load(pth)))
+    finally:
+        if os.path.exists(pth):
+            os.remove(pth)
+        os.rmdir(d)
+
+
+def _unwrap(name, coll):
+    if name == "AnnotationProject":
+        return coll
+    if name == "Clip":
+        return coll.clip_annotations[0].clip
+    if name == "PredictedTag":
+        return coll.clip_predictions[0].tags[0]
+    if name == "SoundEventPrediction":
+        return coll.clip_predictions[0].sound_events[0]
+    if name == "SequencePrediction":
+        return coll.clip_predictions[0].sequences[0]
+    if name == "Match":
+        return coll.clip_evaluations[0].matches[0]
+    return coll.clip_evaluations[0]
 
 
 # ---- scalar bounds ---------------------------------------------------------
@@ -292,6 +371,21 @@ def plan():
         obs.append(Ob("clip-evaluation-a1p0m2-dup-%s" % route, ob_clip_evaluation, "real", 900,
                       dict(route=route, n_ann=1, n_pred=0, n_m=2, dom=3, fix_clip=True),
                       q if route == "ctor" else ("thorough",), twins=("rejected",), twin_timeout=300))
+    # AOEF loading as the fourth route: unvalidated object -> io.save -> io.load
+    route = "aoef"
+    for what in SCORES:
+        obs.append(Ob("score-%s-aoef" % what, ob_score, "real", 600, dict(what=what, route=route),
+                      q if what in ("predicted_tag.score", "match.affinity") else ("thorough",),
+                      twins=("accepted", "rejected"), twin_timeout=300))
+    obs.append(Ob("clip-times-aoef", ob_clip_times, "real", 600, dict(route=route), q, twins=("accepted", "rejected"),
+                  twin_timeout=300))
+    obs.append(Ob("project-membership-2x2-aoef", ob_project, "real", 1200, dict(route=route, fixed_counts=[2, 2]), q,
+                  twins=("accepted", "rejected"), twin_timeout=300))
+    for (n_ann, n_pred, n_m, quick) in ((1, 1, 1, True), (1, 0, 1, False), (0, 1, 1, False), (1, 1, 2, False)):
+        obs.append(Ob("clip-evaluation-a%dp%dm%d-aoef" % (n_ann, n_pred, n_m), ob_clip_evaluation, "real", 2400,
+                      dict(route=route, n_ann=n_ann, n_pred=n_pred, n_m=n_m, dom=3 if n_m == 2 else 4,
+                           fix_clip=(n_m == 2)),
+                      q if quick else ("thorough",), twins=("accepted", "rejected"), twin_timeout=600))
     return obs
 
 
@@ -314,6 +408,7 @@ INFO = dict(
         "CrossHair 0.0.110 + z3",
     ],
     outside=["NaN scores (accepted by ge/le comparisons in pydantic? not decided)", "missing-key inputs to Clip "
-             "(KeyError rather than a validation error)", "the AOEF loading route is exercised by C01/C02's graphs "
-             "only for well-formed objects"],
+             "(KeyError rather than a validation error)", "AOEF loading route: the invalid object is assembled with "
+             "model_construct and written by io.save (documents that io.save cannot produce, e.g. hand-edited ones "
+             "with dangling ids, are C02's subject); three-match arrangements through AOEF"],
 )
